@@ -180,7 +180,11 @@ func (e *Engine) setupSyncIntrinsics() {
 	// (previously Put) object is also possible in reality; callers in this
 	// code base Reset() what they Get, see poolDirty mode.
 	in["(*sync.Pool).Get"] = func(e *Engine, fr *frame, a []Value) Value {
-		e.schedPoint() // in schedule mode another goroutine may Put or Get first
+		if e.poolDirty {
+			e.schedPoint() // in schedule mode another goroutine may Put or Get first
+		}
+		// (without pool-dirty mode Get always returns a fresh object: the operation
+		// is invisible to other goroutines and needs no schedule point)
 		p := a[0].(*Value)
 		if lst := e.poolItems[p]; len(lst) > 0 && e.poolDirty {
 			v := lst[len(lst)-1]
@@ -210,7 +214,9 @@ func (e *Engine) setupSyncIntrinsics() {
 			}
 			e.poolVCs[p] = append(e.poolVCs[p], vc)
 		}
-		e.schedPoint() // the object may now be handed to another goroutine
+		if e.poolDirty {
+			e.schedPoint() // the object may now be handed to another goroutine
+		}
 		return nil
 	}
 
